@@ -1,6 +1,7 @@
 import Sheens.Own
 import Sheens.Proofs.Permanent
 import Sheens.Proofs.OwnStepH
+import Sheens.Proofs.OwnWalk
 
 /-!
 # Property C06, ownership layer — a step never modifies what it is given, returns no shared map
@@ -148,5 +149,44 @@ theorem sameMapAct_result_needs_existing_arg (em : List V) :
     (fun x hx => by cases hx; exact Nat.lt_succ_self _) rfl
   have h3 := this.2.2
   simp [sameMapAct, Heap.get] at h3
+
+
+/-! ## The same for a whole walk -/
+
+theorem walkH_frame (s : SpecH) (hs : s.Good) (hk : KeepsClean s) (st : StateH) (msgs : List V)
+    (limit : Option Int) (bp : State → Bool) (h : Heap) (hwf : h.WF) (hc : Clean h) (hst : StateOk h st) :
+    (walkH s st msgs limit bp h).1.WF ∧ Clean (walkH s st msgs limit bp h).1 ∧
+    h.next ≤ (walkH s st msgs limit bp h).1.next ∧ SameBelow h (walkH s st msgs limit bp h).1 := by
+  obtain ⟨g, _, _⟩ := walkLoopH_spec s hs hk bp h.next
+    (match limit with | none => defaultLimit | some l => l).toNat st msgs [] h ⟨hwf, hc⟩ hst
+    (Nat.le_refl _) (fun _ hx => by cases hx)
+  exact ⟨g.inv.1, g.inv.2, g.mono, g.same⟩
+
+/-- every state a walk reports holds a map that did not exist before the call -/
+theorem walkH_fresh (s : SpecH) (hs : s.Good) (hk : KeepsClean s) (st : StateH) (msgs : List V)
+    (limit : Option Int) (bp : State → Bool) (h : Heap) (hwf : h.WF) (hc : Clean h) (hst : StateOk h st) :
+    ∀ sd ∈ (walkH s st msgs limit bp h).2.strides,
+      (∃ a, sd.frm.bs = some a ∧ h.next ≤ a ∧ ((walkH s st msgs limit bp h).1.get a).isSome) ∧
+      (∀ t, sd.to = some t →
+        ∃ b, t.bs = some b ∧ h.next ≤ b ∧ sd.frm.bs ≠ some b ∧ ((walkH s st msgs limit bp h).1.get b).isSome) := by
+  obtain ⟨_, hall, _⟩ := walkLoopH_spec s hs hk bp h.next
+    (match limit with | none => defaultLimit | some l => l).toNat st msgs [] h ⟨hwf, hc⟩ hst
+    (Nat.le_refl _) (fun _ hx => by cases hx)
+  intro sd hsd
+  obtain ⟨⟨a, ha1, ha2, ha3⟩, hto⟩ := hall sd hsd
+  refine ⟨⟨a, ha1, ha2, ha3.2⟩, ?_⟩
+  intro t ht
+  obtain ⟨b, hb1, hb2, hb3, hb4⟩ := hto t ht
+  exact ⟨b, hb1, hb2, hb3, hb4.2⟩
+
+/-- read back through the final heap, the walk is the pure model's `walk` -/
+theorem walkH_refines (s : SpecH) (hs : s.Good) (hk : KeepsClean s) (st : StateH) (msgs : List V)
+    (limit : Option Int) (bp : State → Bool) (h : Heap) (hwf : h.WF) (hc : Clean h) (hst : StateOk h st) :
+    (walkH s st msgs limit bp h).2.abs (walkH s st msgs limit bp h).1 =
+      walk s.abs (st.abs h) msgs limit bp := by
+  obtain ⟨_, _, hab⟩ := walkLoopH_spec s hs hk bp h.next
+    (match limit with | none => defaultLimit | some l => l).toNat st msgs [] h ⟨hwf, hc⟩ hst
+    (Nat.le_refl _) (fun _ hx => by cases hx)
+  exact hab
 
 end Sheens.C06
